@@ -5,10 +5,20 @@ properties.jsonl) and the working conventions - nothing about /verif's checks.""
 import json, sys
 pid, wt = sys.argv[1], sys.argv[2]
 n = sys.argv[3] if len(sys.argv) > 3 else "2"
+start = int(sys.argv[4]) if len(sys.argv) > 4 else 1
+import os, glob
+taken = []
+for d in sorted(glob.glob(f'/verif/seeded/{pid}_*')):
+    mp = os.path.join(d, 'meta.json')
+    if os.path.exists(mp) and start > 1:
+        m = json.load(open(mp))
+        taken.append(f"  - {m.get('file', '?')} / {m.get('function', '?')}: {m.get('summary', '')[:300]}")
+taken_txt = ("\n\nOther people have ALREADY delivered the following changes for this property; yours must be DIFFERENT (another mechanism, another function or another clause of the property - not a variation of these):\n" + "\n".join(taken)) if taken else ""
+idx = ", ".join(str(i) for i in range(start, start + int(n)))
 prop = next(json.loads(l) for l in open('/verif/properties.jsonl') if json.loads(l)['id'] == pid)
 print(f"""You are helping to evaluate a verification effort for the Python library pyDCOP (distributed constraint optimisation: algorithms such as DPOP/MGM/MaxSum on a threaded message-passing agent runtime).
 
-You have your OWN scratch git worktree of the repository at {wt} (detached HEAD). Work ONLY inside {wt}. Never touch /repo or /verif and never read anything under /verif. Python to use: /venv/bin/python (the package is imported from the current directory when you run from {wt}, so always `cd {wt}` first). The sandbox has no network.
+You have your OWN scratch git worktree of the repository at {wt} (detached HEAD). Work ONLY inside {wt}. Never touch /repo or /verif and never read anything under /verif. Python to use: /venv/bin/python with PYTHONPATH={wt} (an editable install of another copy exists: always run `cd {wt} && PYTHONPATH={wt} /venv/bin/python ...` and verify once that `import pydcop; print(pydcop.__file__)` points into {wt}). The sandbox has no network.
 
 Here is a semantic property that the library is supposed to satisfy (JSON record: statement, quantifier, code anchors):
 
@@ -17,15 +27,15 @@ Here is a semantic property that the library is supposed to satisfy (JSON record
 YOUR TASK: produce {n} DIFFERENT, independent source changes ("seeded defects") to the library code under {wt}/pydcop, each of which
   (a) BREAKS this property (the behaviour the statement describes no longer holds for some input / schedule / history),
   (b) still compiles/imports and still passes the repository's existing test-suite. On the clean tree the suite gives roughly "62 failed, 793 passed, 25 skipped, 1 error" in ~60 s (the failures are pre-existing: missing solver binary, known broken tests, a few flaky subprocess tests under tests/dcop_cli). What matters: every test that passes on the clean tree must still pass with your change. Measure it, do not guess:
-        cd {wt} && /venv/bin/python -m pytest -q -p no:cacheprovider --timeout=900 --continue-on-collection-errors --junitxml=/tmp/wt/{pid}_run.xml 2>&1 | tail -3
+        cd {wt} && unshare -rn sh -c 'ip link set lo up; PYTHONPATH={wt} /venv/bin/python -m pytest -q -p no:cacheprovider --timeout=900 --continue-on-collection-errors --junitxml=/tmp/wt/{pid}_run.xml' 2>&1 | tail -3
       once on the clean tree and once per change, and compare the sets of passed test ids (parse the junit xml with a few lines of python). Other people run the same suite concurrently on this machine and a few tests (tests/unit/test_infra_communication.py HTTP tests, tests/dcop_cli/*) use real TCP ports / subprocesses and can flake: if one of those differs, re-run that test alone before concluding,
   (c) is REALISTIC - the kind of slip a maintainer could make in a refactoring or "small improvement" (an off-by-one, a dropped or weakened guard, a swapped argument, a wrong comparison, a missing copy, a reordered pair of statements, a forgotten field, a changed default, two sites that each look fine alone but disagree...), small (a few lines), not a blatant sabotage, and
   (d) needs SOMETHING SPECIFIC to manifest: a particular interleaving or delivery order, a crash/fault at a particular point, a multi-step sequence of operations, an unusual input (ties, infinities, empty sets, repeated names, max-mode, ...), or two cooperating sites. NOT something ordinary use would expose immediately.
-Prefer changes located in the mechanisms the anchors name, but any file of the package is allowed. The {n} changes should touch different mechanisms / clauses of the property.
+Prefer changes located in the mechanisms the anchors name, but any file of the package is allowed. The {n} changes should touch different mechanisms / clauses of the property.{taken_txt}
 
-For EACH change i (1..{n}) deliver, in the directory {wt}/_seed/{pid}_<i>/ :
+For EACH change i (i in {idx}) deliver, in the directory {wt}/_seed/{pid}_<i>/ :
   - patch.diff : `git diff` of ONLY that change against the clean HEAD (apply with `git apply`), touching only files under pydcop/.
-  - demo.py (or test_demo.py) : a small self-contained program run as `cd <tree> && /venv/bin/python _seed/{pid}_<i>/demo.py` that exits 0 / prints PASS on the clean tree and exits non-zero / prints FAIL with the change applied. It must exercise the real library code (no mocks of the changed function), be deterministic (fix seeds) and finish in < 60 s. Avoid real sockets/HTTP; threads are fine if the outcome is deterministic.
+  - demo.py (or test_demo.py) : a small self-contained program run as `cd <tree> && PYTHONPATH=<tree> /venv/bin/python _seed/{pid}_<i>/demo.py` that exits 0 / prints PASS on the clean tree and exits non-zero / prints FAIL with the change applied. It must exercise the real library code (no mocks of the changed function), be deterministic (fix seeds) and finish in < 60 s. Avoid real sockets/HTTP; threads are fine if the outcome is deterministic.
   - meta.json : {{"property": "{pid}", "summary": "<one sentence: what was changed>", "file": "<path>", "function": "<qualified function>", "needs": "<what specific input/schedule/history is needed to manifest>", "why_tests_pass": "<why the existing tests do not notice>"}}
 Procedure for each: start from a clean tree (`git -C {wt} checkout -- pydcop`), make the change, run the full test-suite and confirm that every test passing on the clean tree still passes, run the demo WITH the change (must fail), save patch.diff, revert the change (`git -C {wt} checkout -- pydcop`), run the demo on the clean tree (must pass). Leave the worktree clean (only the untracked _seed/ directory remains).
 
